@@ -20,16 +20,16 @@ CLAIMED = {
     'C05': ('Type 2 charstring interpreter (38 operator forms, hints, width) vs an in-harness TN5177 interpreter; composite glyph assembly; normalisation, avar map and tent scalars; inferred gvar deltas; on-the-fly glyph instances (gvar + IUP) vs spec formulas, on symbolic reals', '3/C05 and section 8'),
     'C06': ('subtable splitting, overflow resolution and GPOS compaction preserve the pair-positioning lookup result for every glyph pair and all symbolic values; OTTableWriter offset packing with symbolic sizes raises OTLOffsetOverflowError exactly when a 16-bit offset does not fit; GPOS compile->decompile', '3/C06 and section 8'),
     'C07': ('subset_glyphs of PairPos/SinglePos/MarkBasePos with a symbolic retained glyph set and symbolic values keeps every retained record; GSUB glyph closure covers everything an in-harness shaper produces; anchors keep variation devices without hinting; CFF seac closure; VarStore index subsetting keeps values', '3/C07 and section 8'),
-    'C08': ('tuple-variation rebasing/merging/rounding and feature-variation condition ranges evaluate like the original at every location inside the new limits', '3/C08'),
+    'C08': ('tuple-variation rebasing/merging/rounding and feature-variation condition ranges evaluate like the original at every location inside the new limits; hmtx/vmtx from symbolic phantom points in glyf._setCoordinates; flattening glyph-pair subtables before instancing keeps the first record of a repeated pair', '3/C08 and section 8'),
     'C09': ('rebaseTent over all real tents x limits x locations; VariationModel on every lattice location set; IUP optimisation within tolerance - exact rational arithmetic', '3/C09'),
-    'C10': ('sparse sub-models (incl. after reorderMasters) reproduce present masters exactly; master->deltas->ItemVariationStore->instancer within 1/2 at master locations; the avar map emitted for a symbolic axis map sends every knot to its designspace value; merger pair look-up follows the OpenType lookup rule', '3/C10 and section 8'),
+    'C10': ('sparse sub-models (incl. after reorderMasters) reproduce present masters exactly; master->deltas->ItemVariationStore->instancer within 1/2 at master locations; the avar map emitted for a symbolic axis map sends every knot to its designspace value; merger pair look-up follows the OpenType lookup rule; flattening class-kerning subtables keeps every pair value; CFF2 region indices follow their supports across sparse sub-models', '3/C10 and section 8'),
     'C12': ('specialise/generalise preserve the drawn path for all operand values; stack limit and arities; byte-code and width round trips; remove_hints/desubroutinize/subroutine pruning keep the outline; CFF2 blend packing keeps operands and deltas within the 513-entry stack', '3/C12 and section 8'),
-    'C13': ('tolerance contract of cu2qu/qu2cu on concrete curve families x symbolic tolerance(s) (every tolerance case the code distinguishes; sampled deviation <= tolerance; equal segment counts; per-curve tolerances); exact subdivision/elevation algebra on symbolic control points; glyph segment collection is connected', '3/C13 and section 8'),
+    'C13': ('tolerance contract of cu2qu/qu2cu on concrete curve families x symbolic tolerance(s) (every tolerance case the code distinguishes; sampled deviation <= tolerance; equal segment counts; per-curve tolerances); exact subdivision/elevation algebra on symbolic control points; glyph segment collection is connected; Cu2QuPen on consecutive curves converts every segment from its own start point', '3/C13 and section 8'),
     'C14': ('reverse/area, segment<->point protocol, record/replay, transform pen and Transform algebra, rounding pen, super-bezier consistency, TrueType glyph building with implied-point dropping: canonical-outline equality over symbolic coordinates for enumerated contour shapes', '3/C14 and section 8'),
-    'C15': ('every varint/operand/packed-run/eexec/sstruct/fixed-point codec is inverse to its decoder over its whole domain', '3/C15'),
+    'C15': ('every varint/operand/packed-run/eexec/sstruct/fixed-point codec is inverse to its decoder over its whole domain (bounded per kernel); tag <-> identifier/XML-name codecs over all 4-character printable-ASCII tags; IFT sparse bit sets on windows of small integer sets', '3/C15 and section 8'),
     'C16': ("compile twice -> identical bytes and unchanged content for the table codecs; TTFont.save twice -> identical bytes, flavorData untouched, WOFF version follows the current head; TTCollection.save restores recalcTimestamp flags and stamps the stubbed clock's instant; hash-seed/process/time-zone independence is outside the technique", '3/C16 and section 8'),
     'C17': ('scale_upem: every design-unit value of an in-memory font (head, hhea, OS/2, post, hmtx, glyf, gvar incl. empty glyphs, kern, GPOS incl. NULL anchors) scaled exactly once within 1/2, everything else untouched; reorderGlyphs under a symbolic permutation keeps coverage-indexed records attached to their glyph names', '3/C17 and section 8'),
-    'C18': ("cmap merge with symbolic code points: first font wins, later duplicates recorded; merged glyph names pairwise different for symbolic names; feature lists keep every input's lookups; glyf merge resolves composites against their own font; CFF merge keeps every advance width for symbolic default/nominal widths", '3/C18 and section 8'),
+    'C18': ("cmap merge with symbolic code points: first font wins, later duplicates recorded; merged glyph names pairwise different for symbolic names; feature lists keep every input's lookups; glyf merge resolves composites against their own font; CFF merge keeps every advance width for symbolic default/nominal widths; LangSys feature indices (required feature, index 0 included) become references", '3/C18 and section 8'),
     'C19': ('generated file names (both copies of userNameToFileName, symbolic printable-ASCII characters, long fillers, clash path, name sequences) are legal, <= 255 characters, not reserved, unique ignoring case; axis map forward/backward are inverse on monotone maps', '3/C19 and section 8'),
     'C20': ('only TTLibError escapes the sfnt/TTC/WOFF header+directory parser for every truncation length and content; undecodable tables kept verbatim; a failed save never opens the destination (symbolic crash point)', '3/C20'),
 }
